@@ -65,9 +65,11 @@ func (x *hW) deathStep(op int) {
 }
 
 func HC06_TargetDeath() {
-	prof, capInc, relInc := hConfig2()
+	var prof, capInc, relInc int
 	if vTier() == 0 {
 		prof, capInc, relInc = hConfig()
+	} else {
+		prof, capInc, relInc = hConfig2()
 	}
 	x := hNew(prof, 6, capInc, relInc)
 	x.prefix(hDeathPrefixes[vChoice("prefix", len(hDeathPrefixes))])
